@@ -21,6 +21,31 @@ type knownFinding struct {
 	Text       string
 }
 
+// claimedCategory: level_claimed.category of the property in MANIFEST.json ("" if unreadable)
+func claimedCategory(verifDir, id string) string {
+	data, err := os.ReadFile(filepath.Join(verifDir, "MANIFEST.json"))
+	if err != nil {
+		return ""
+	}
+	var m struct {
+		Checks []struct {
+			PropertyID   string `json:"property_id"`
+			LevelClaimed struct {
+				Category string `json:"category"`
+			} `json:"level_claimed"`
+		} `json:"checks"`
+	}
+	if json.Unmarshal(data, &m) != nil {
+		return ""
+	}
+	for _, c := range m.Checks {
+		if c.PropertyID == id {
+			return c.LevelClaimed.Category
+		}
+	}
+	return ""
+}
+
 func loadKnown(path string) []knownFinding {
 	data, err := os.ReadFile(path)
 	if err != nil {
@@ -213,6 +238,7 @@ func cmdCheck(eng *Engine, args []string) int {
 	assumed := map[string]bool{}
 	var fnNames, unsupported, samples, knownHit []string
 	seenKnown := map[string]bool{}
+	nKnownBounded := 0 // known findings met only by a bounded check: they do not change the level of the proved obligations
 	var out strings.Builder
 	violation := func(name, body string, noInput bool) {
 		nViol++
@@ -414,6 +440,7 @@ func cmdCheck(eng *Engine, args []string) int {
 		if isKnown {
 			if strings.Contains(r.Name, "/bounded/") {
 				nOb--
+				nKnownBounded++
 			}
 			continue
 		}
@@ -514,9 +541,13 @@ func cmdCheck(eng *Engine, args []string) int {
 	}
 	level := "proof"
 	expl := ""
-	if len(knownHit) > 0 || nViol > 0 {
+	if len(knownHit) > nKnownBounded || nViol > 0 {
 		level = "other"
 		expl = fmt.Sprintf("%d of %d obligations discharged; %d open known findings; %d violations", nOK, nOb, len(knownHit), nViol)
+	}
+	if level == "proof" && claimedCategory(verifDir, id) == "other" {
+		level = "other"
+		expl = fmt.Sprintf("%d of %d obligations discharged (SMT and mechanical SSA results together); the claim is a set of decided sufficient conditions and structural clauses, not the whole statement - see level_claimed in MANIFEST.json", nOK, nOb)
 	}
 	if id == "C16" && level == "proof" {
 		level = "other"
